@@ -36,6 +36,10 @@ def family():
     ok("pre:valid-put", "presigned PUT", A.v4_presigned("PUT"))
     ok("pre:header-repeated-desc", "repeated signed header, values in descending order",
        A.v4_presigned(extra_headers=[("x-amz-meta-tag", "zulu"), ("x-amz-meta-tag", "alpha")]))
+    ok("pre:header-inner-tab", "signed header value with a horizontal tab inside (kept as it is: only spaces are collapsed)",
+       A.v4_presigned(extra_headers=[("x-amz-meta-tag", "alpha\tbeta  gamma")]))
+    no("pre:alt-tab-for-space", "a space of a signed header value replaced by a horizontal tab after signing",
+       A.v4_presigned(extra_headers=[("x-amz-meta-tag", "alpha beta")], mutate=lambda rq: A.set_header(rq, "x-amz-meta-tag", lambda v: "alpha\tbeta")))
     def swap_rep(rq):
         i = [k for k, (n, v) in enumerate(rq["headers"]) if n == "x-amz-meta-tag"]
         rq["headers"][i[0]], rq["headers"][i[1]] = rq["headers"][i[1]], rq["headers"][i[0]]
@@ -72,6 +76,7 @@ def run(rep, tier):
     rep.encoded("crates/s3s/src/sig_v4/presigned_url_v4.rs", "parse_expires (Kani), PresignedUrlV4::parse (family)")
     import C05
     C05.canonical(rep, presigned=True)
+    C05.header_value_rule(rep, True)
     sigprops.check_paths(rep, "v4-presigned", "C06 paths")
     kspec.run_spec(rep, "C06", tier, budget_s=400)
     sigprops.run_family(rep, "C06", family(), label="presigned family")
